@@ -70,7 +70,11 @@ type Case struct {
 	Depth   string  `json:"depth,omitempty"`
 	Lexical []int   `json:"lexical,omitempty"`
 	Alt     bool    `json:"alt_names,omitempty"` // principal /dav/ada/, home set /dav/ada/dav/
+	Chunked bool    `json:"chunked,omitempty"`   // request bodies are sent without a declared length (Transfer-Encoding: chunked)
 }
+
+// chunkedBodies: set by evaluate for the case at hand (one case is evaluated at a time)
+var chunkedBodies bool
 
 // the hierarchy below the mount prefix "/dav": two spellings - names that share no letter with the prefix, and names
 // made only of the prefix's own letters (a prefix removed as a character set eats exactly those; after C11-s12)
@@ -376,7 +380,16 @@ func serve(w *world, target, depth, b, ct string) cfs.Resp {
 	if ct != "" {
 		fmt.Fprintf(&raw, "Content-Type: %s\r\n", ct)
 	}
-	fmt.Fprintf(&raw, "Content-Length: %d\r\n\r\n%s", len(b), b)
+	if chunkedBodies && len(b) > 0 {
+		k := (len(b) + 1) / 2
+		fmt.Fprintf(&raw, "Transfer-Encoding: chunked\r\n\r\n%x\r\n%s\r\n", k, b[:k])
+		if k < len(b) {
+			fmt.Fprintf(&raw, "%x\r\n%s\r\n", len(b)-k, b[k:])
+		}
+		raw.WriteString("0\r\n\r\n")
+	} else {
+		fmt.Fprintf(&raw, "Content-Length: %d\r\n\r\n%s", len(b), b)
+	}
 	req, err := http.ReadRequest(bufio.NewReader(strings.NewReader(raw.String())))
 	if err != nil {
 		panic(err)
@@ -442,6 +455,8 @@ func read(resp cfs.Resp, cls string) (map[string]map[vx.Name][]found, []string, 
 
 func evaluate(c Case) (vev.Outcome, error) {
 	setLayout(c.Alt)
+	chunkedBodies = c.Chunked
+	defer func() { chunkedBodies = false }()
 	w := build(c)
 	scope, countOnly, known := w.scope(c.Target, c.Depth)
 	if !known {
@@ -815,6 +830,7 @@ func TestPropfind(t *testing.T) {
 		c.Form = rapid.SampledFrom([]string{"prop", "prop", "prop", "propname", "allprop", "allprop+include", "empty", "none"}).Draw(rt, "form")
 		c.Depth = rapid.SampledFrom([]string{"", "0", "1", "infinity"}).Draw(rt, "depth")
 		c.Lexical = rapid.SliceOfN(rapid.IntRange(0, 11), 24, 24).Draw(rt, "lexical")
+		c.Chunked = rapid.IntRange(0, 3).Draw(rt, "chunked") == 0
 		if c.Form == "prop" || c.Form == "allprop+include" {
 			n := rapid.IntRange(0, 8).Draw(rt, "nnames")
 			for i := 0; i < n; i++ {
